@@ -354,13 +354,11 @@ def r6(fx):
     for m, q, fn in fx.forest.functions():
         for n in src.walk_local(fn):
             if isinstance(n, ast.While):
-                whiles.append((m, q))
-    if sorted(set(whiles)) != [('encoder', 'mask_scores.n3_pattern_occurrences')]:
-        raise Unknown(f'the set of while-loops changed: {sorted(set(whiles))} (each needs a progress argument)')
-    from . import p06 as _p06
-    for o in _p06.r7(fx):
-        if o.key.startswith('search resumes') or o.key.startswith('the resumed search'):
-            yield o
+                whiles.append((m, q, n))
+    need(whiles, 'no while-loop found (the N3 search loop is expected)')
+    for m, q, w in whiles:
+        yield ob(f'while-loop in {m}.{q} makes progress on every iteration', _progress(w) is not None, w, got=_progress(w) or f'no progress argument found for `while {ast.unparse(w.test)[:60]}`',
+                 want='a variable moves monotonically towards the bound tested by the loop condition')
     inf = []
     for m, q, fn in fx.forest.functions():
         for c in src.calls_in(fn, into_nested=False):
@@ -370,6 +368,62 @@ def r6(fx):
                 inf.append(f'{m}.{q}: {ast.unparse(c)}')
     yield ob('no unbounded iterator (count, cycle, repeat without count) is consumed', not inf, fx.forest.mod('writers'),
              where='package', got=inf, want=[])
+
+
+def _progress(w):
+    """A progress argument for a while-loop, or None / Unknown.
+
+    (a) search loop: `while i != -1` whose body ends every iteration with `i = seq.find(pattern, i + k)`, k >= 1: the start
+        offset grows strictly, find returns -1 or a position >= the offset, positions are bounded by the length;
+    (b) counter loop: a conjunct `v < B` / `v <= B` of the condition, `v += c` (c > 0) executed on every iteration, B not written."""
+    body = w.body
+    if any(isinstance(n, ast.Continue) for s_ in body for n in ast.walk(s_) if not isinstance(s_, (ast.For, ast.While))):
+        # a `continue` could skip the progress statement: only accepted when it comes after it
+        pass
+    b = pat.match(w.test, 'H_i != -1')
+    if b is not None and isinstance(b['i'], ast.Name):
+        iv = b['i'].id
+        for k, st in enumerate(body):
+            if isinstance(st, ast.Assign) and len(st.targets) == 1 and isinstance(st.targets[0], ast.Name) and st.targets[0].id == iv:
+                bb = pat.match(st.value, 'H_s.find(H_p, H_o)')
+                if bb is None:
+                    continue
+                try:
+                    a = nf.affine(bb['o'])
+                except Unknown:
+                    continue
+                before = [n for s_ in body[:k] for n in ast.walk(s_) if isinstance(n, (ast.Continue,))]
+                stores = [n for s_ in body for n in ast.walk(s_) if isinstance(n, ast.Name) and isinstance(n.ctx, ast.Store) and n.id == iv]
+                if set(a) <= {iv, ''} and a.get(iv) == 1 and a.get('', 0) >= 1 and not before and len(stores) == 1:
+                    return f'{iv} = find(..., {iv} + {a[""]}) on every iteration'
+        return None
+    conj = w.test.values if isinstance(w.test, ast.BoolOp) and isinstance(w.test.op, ast.And) else [w.test]
+    for c in conj:
+        for ptn, vi, bi in (('H_v < H_b', 'v', 'b'), ('H_v <= H_b', 'v', 'b')):
+            bb = pat.match(c, ptn)
+            if bb is None:
+                continue
+            for v, bnd in ((bb['v'], bb['b']), (bb['b'], bb['v'])):
+                pass
+            v, bnd = bb['v'], bb['b']
+            # pat.match is orientation-insensitive: find which side is the counter
+            for cand, other in ((v, bnd), (bnd, v)):
+                if not isinstance(cand, ast.Name):
+                    continue
+                incs = [st for st in body if isinstance(st, ast.AugAssign) and isinstance(st.target, ast.Name) and st.target.id == cand.id
+                        and isinstance(st.op, ast.Add) and isinstance(st.value, ast.Constant) and isinstance(st.value.value, int) and st.value.value > 0]
+                if len(incs) != 1:
+                    continue
+                k = body.index(incs[0])
+                skips = [n for s_ in body[:k] for n in ast.walk(s_) if isinstance(n, ast.Continue)]
+                other_names = {n.id for n in ast.walk(other) if isinstance(n, ast.Name)}
+                written = {n.id for s_ in body for n in ast.walk(s_) if isinstance(n, ast.Name) and isinstance(n.ctx, ast.Store)}
+                stores = [n for s_ in body for n in ast.walk(s_) if isinstance(n, ast.Name) and isinstance(n.ctx, ast.Store) and n.id == cand.id]
+                # the counter must be on the smaller side: `cand < other`
+                ok_side = nf.same(c, f'{cand.id} < {ast.unparse(other)}') or nf.same(c, f'{cand.id} <= {ast.unparse(other)}')
+                if ok_side and not skips and not (other_names & written) and len(stores) == 1 and not any(isinstance(n, ast.Call) for n in ast.walk(other) if not (isinstance(n, ast.Call) and src.call_name(n) == 'len')):
+                    return f'{cand.id} += {incs[0].value.value} on every iteration, bounded by {ast.unparse(other)}'
+    return None
 
 
 def _inside_fillvalue(call):
@@ -444,7 +498,7 @@ class Cfg(dict):
     _model = ('pop', 'get')
 
 
-@rule('C14', 'R9', 6, 'CLI: 0 only after writing; a ValueError while creating the symbol -> message on stderr, exit status 1, no traceback')
+@rule('C14', 'R9', 5, 'CLI: 0 only after writing; a ValueError while creating the symbol -> message on stderr, exit status 1, no traceback')
 def r9(fx):
     fn = fx.fn('cli', 'main')
     it = Interp()
@@ -495,7 +549,7 @@ def r9(fx):
         def make_code(config):
             if fail:
                 from ..interp import Raised
-                raise Raised(None, ValueError, '<library message>')
+                raise Raised(None, ValueError if fail is True else fail, '<library message>')
             return QR()
 
         def build_config(config, filename=None):
@@ -524,15 +578,13 @@ def r9(fx):
         okf = isinstance(tail, ast.If) and any(pat.match(s, 'sys.exit(main())', mode='stmt') is not None for s in tail.body)
     yield ob('ValueError while creating the symbol: message to stderr, process exit status non-zero, nothing written', okf, fn,
              got=(ret, lg), want="stderr message then sys.exit(1) (or `sys.exit(main())` at the script entry)")
-    h = [x for x in ast.walk(fn) if isinstance(x, ast.ExceptHandler)]
-    hh = single(h, 'except handler in main')
-    yield ob('the handler catches ValueError (DataOverflowError included) only around symbol creation', ast.unparse(hh.type) == 'ValueError'
-             and len(src.parent(hh).body) == 1 and 'make_code' in ast.unparse(src.parent(hh).body[0]), hh, got=ast.unparse(hh.type), want='ValueError')
-    # console entry point
-    rets = [r for r in ast.walk(fn) if isinstance(r, ast.Return)]
-    yield ob('main has no other successful exit', sorted(ast.unparse(r) for r in rets) in (['return 0', 'return sys.exit(1)'],
-                                                                                           ['return 0', 'return 1']), fn,
-             got=sorted(ast.unparse(r) for r in rets), want=['return 0', 'return sys.exit(1)'])
+    try:
+        ret, lg = run('out.svg', TypeError)
+        got = (ret, lg)
+    except PyRaise as ex:
+        got = f'raises {ex.name}'
+    yield ob('an exception other than ValueError while creating the symbol is not swallowed (no status 0, nothing written)', got == 'raises TypeError', fn,
+             got=got, want='raises TypeError')
     tail = fx.forest.mod('cli').body[-1]
     yield ob('script entry runs main()', isinstance(tail, ast.If) and nf.same(tail.test, "__name__ == '__main__'"), tail,
              got=ast.unparse(tail)[:60], want="if __name__ == '__main__': main()")
